@@ -159,7 +159,7 @@ def main(pid, tier):
     if pid in ("C01", "C03", "C06"):
         # the design: every input of a small universe (byte strings, link structure, filters, unreadable identity) and every
         # order of the hashing tasks of the staged pipeline keeps Sound / Complete / NeverSplit / FilterHonoured (Grouping.tla)
-        cfgs = ["quick", "quickS", "quickT", "iso", "thorough"] if thorough else {"C01": ["quickS", "quickT"], "C03": ["quick"], "C06": ["isoq"]}[pid]
+        cfgs = ["quick", "quickS", "quickT", "bigS", "iso", "thorough"] if thorough else {"C01": ["quickS", "quickT", "bigS"], "C03": ["quick"], "C06": ["isoq"]}[pid]
         for c in cfgs:
             res = lib.run_tlc("MC_Grouping.tla", f"MC_Grouping_{c}.cfg", workers=12 if thorough else 8, timeout=7200, coverage=c.startswith("quick"), xmx="24g")
             chk.add_tlc(f"MC_Grouping_{c}(staged pipeline, all inputs of the small universe x all task orders)", res)
@@ -190,6 +190,12 @@ def main(pid, tier):
             for key in ("unique", "rf_under", "rf_over", "max_prefix", "max_suffix"):
                 cfg.pop(key, None)
             cfg[rng.choice(["rf_under", "rf_over"])] = rng.choice([2, 3])
+        if pid in ("C01", "C03") and k % 12 == 0:
+            # both hash windows are the whole file (prefix and suffix sizes above the file length, length above the suffix threshold)
+            files = gg.whole_window_tree(rng)
+            for key in ("transform", "unique", "rf_under", "rf_over"):
+                cfg.pop(key, None)
+            cfg.update({"disk_kind": "ssd", "max_prefix": 100000, "max_suffix": rng.choice([100000, 100000, 65536]), "isolate": False})
         if pid in ("C03", "C06") and k % 10 == 0:
             cfg["mounts"] = True
         if pid in ("C03", "C06") and not cfg.get("transform") and rng.random() < 0.15:
